@@ -52,8 +52,13 @@ def concrete(sym, r, name=None):
     impl = {"K1": "v1", "U1": "v1", "R1": "v1", "E1": "v1", "K2": "v2", "U2": "v2", "M2e": "v2", "D": "defaults", "Kb": "v1", "Ce": "v1"}[sym]
     strategy = {"K1": "keep", "U1": "update", "R1": "recreate", "E1": "boom-strategy", "K2": "keep", "U2": "update", "M2e": "keep", "D": "recreate", "Kb": "keep", "Ce": "recreate"}[sym]
     migrate = {"action": {"K2": "replace", "U2": "recreate", "M2e": "boom-migrate"}.get(sym, r.choice(["recreate", "replace"])), "metadata_value": "mig%d" % r.randrange(100)}
-    return {"op": "handle", "name": name, "impl": impl, "types": types, "strategy": strategy, "migrate": migrate,
+    step = {"op": "handle", "name": name, "impl": impl, "types": types, "strategy": strategy, "migrate": migrate,
             "create": gen_result(r, "boom-create" if sym == "Ce" else None), "update": gen_result(r, "boom-update" if r.random() < 0.08 else None)}
+    if r.random() < 0.3:
+        # a layer whose types depend on what its callbacks find out (cache only what was verified, ...): until the first of
+        # create / update / existing_layer_strategy has run, types() answers something else. What counts is the answer afterwards.
+        step["types_before"] = {"launch": not types["launch"], "build": r.random() < 0.5, "cache": not types["cache"]}
+    return step
 
 
 def enc_step(step, src):
